@@ -97,6 +97,15 @@ def main(p):
     py = sp["disp"].py_func
     args = sp["conc"](p["sizes"])
     names = list(inspect.signature(py).parameters)
+    # contents of the read-only input arrays as the solver chose them (e.g. unequal delays)
+    for a, nm in zip(args, names):
+        if isinstance(a, np.ndarray) and nm in (p.get("loads") or {}) and not a.dtype.names:
+            for k, v in p["loads"][nm].items():
+                if int(k) < a.size:
+                    try:
+                        a.ravel()[int(k)] = v
+                    except (OverflowError, ValueError):
+                        pass
     la = one_iteration(py, args, names, p["it_a"])
     lb = one_iteration(py, args, names, p["it_b"])
     wa = {(n, e) for k, n, e in la if k == "W"}
